@@ -1,4 +1,5 @@
 import CanVerif.Lemmas.FrameText
+import CanVerif.Lemmas.FrameText2
 /-!
 # C15  Frame <-> candump text: valid frames round-trip; parsing is total and atomic
 
@@ -119,15 +120,56 @@ theorem C15_roundtrip (f : Frame) (hv : f.validate = true) (hz : f.UnusedZero) :
     · have hmod : len.toNat % 10 = len.toNat := Nat.mod_eq_of_lt (by omega)
       simp only [h0, dite_false, denote, hnum, hext, hz, hmod, hlen8]
 
-/-- A parsed remote frame carries no data (part of "whenever the parsed frame is valid, printing and
-re-parsing is the identity"; the data-frame half needs `dataBytes (dataOfBytes bs)` and is covered by the
-correspondence run, see DESIGN.md C15). -/
+/-- A parsed remote frame carries no data. -/
 theorem C15_parsed_remote_zero (base : Frame) (dp : Str) (f : Frame) (hb : base.data = 0#64)
     (h : parsePayload base dp = some f) (hr : f.isRemote = true) (hbr : base.isRemote = false) : f.data = 0#64 := by
   unfold parsePayload at h
   dsimp only at h
   repeat' split at h
   all_goals (cases h <;> simp_all)
+
+/-- Every frame the parser returns has zero unused data bytes (remote frames carry no data; a data frame's payload
+is exactly the decoded bytes, zero-padded). -/
+theorem C15_parsed_unused_zero (s : Str) (f : Frame) (h : parseFrame s = some f) : f.UnusedZero := by
+  unfold parseFrame at h
+  split at h
+  · next idPart dataPart _ =>
+    split at h
+    · cases h
+    · split at h
+      · cases h
+      · next id _ =>
+        unfold parsePayload at h
+        dsimp only at h
+        split at h
+        · cases h; simp [Frame.UnusedZero, dataOfBytes]
+        · split at h
+          · split at h
+            · cases h
+            · split at h
+              · split at h
+                · cases h; simp [Frame.UnusedZero]
+                · cases h
+              · cases h; simp [Frame.UnusedZero]
+          · split at h
+            · cases h
+            · next hlen =>
+              split at h
+              · cases h
+              · next bytes hdec =>
+                cases h
+                have hl := hexDecode_length dataPart bytes hdec
+                have h8 : bytes.length ≤ 8 := by omega
+                have hn : (BitVec.ofNat 8 (dataPart.length / 2)).toNat = bytes.length := by
+                  simp; omega
+                simp only [Frame.UnusedZero, Bool.false_eq_true, if_false, hn]
+                rw [dataBytes_dataOfBytes bytes h8]
+  · cases h
+
+/-- Whenever the parsed frame is valid, printing and re-parsing it is the identity. -/
+theorem C15_reprint (s : Str) (f : Frame) (h : parseFrame s = some f) (hv : f.validate = true) :
+    ∃ s', f.toStr = .ok s' ∧ parseFrame s' = some f :=
+  C15_roundtrip f hv (C15_parsed_unused_zero s f h)
 
 /-- Totality and atomicity: for any byte string the parser returns an error (`none`; the destination is not
 part of the result, hence untouched) or a frame.  Every partial operation of the Go code (`dataPart[0]`,
